@@ -41,19 +41,23 @@ pub struct Case {
     /// an earlier, unrelated (possibly malformed) numeral run, closed by a neutral word, in the same text
     #[serde(default)]
     pub preamble: Option<String>,
+    /// the optional `enableNormalize` key is left out of the plugin settings (its default is "enabled")
+    #[serde(default)]
+    pub omit_key: bool,
 }
 
 pub struct C15;
 
 thread_local! {
-    static DICT: std::cell::RefCell<Option<std::rc::Rc<Dict>>> = std::cell::RefCell::new(None);
+    static DICT: std::cell::RefCell<[Option<std::rc::Rc<Dict>>; 2]> = std::cell::RefCell::new([None, None]);
 }
 
 const NEUTRAL: &[&str] = &["あ", "x", "は", "円"];
 
-fn numeral_dict(ctx: &Ctx) -> std::rc::Rc<Dict> {
+fn numeral_dict(ctx: &Ctx, omit_key: bool) -> std::rc::Rc<Dict> {
     DICT.with(|g| {
         let mut g = g.borrow_mut();
+        let g = &mut g[omit_key as usize];
         if g.is_none() {
             let num = pos_from_str(POS_NUM);
             let noun = pos_from_str(POS_NOUN);
@@ -70,7 +74,7 @@ fn numeral_dict(ctx: &Ctx) -> std::rc::Rc<Dict> {
                 input: vec![InputPlugin::Default { rewrite: FileSrc::Shipped }],
                 oov: vec![OovPlugin::Simple { pos: pos_from_str(POS_SYM), left: 1, right: 1, cost: 20000, user_pos: Some(true) }],
                 inhibit: None,
-                path: vec![PathPlugin::JoinNumeric { enable_normalize: Some(true) }],
+                path: vec![PathPlugin::JoinNumeric { enable_normalize: if omit_key { None } else { Some(true) } }],
             };
             let (d, _) = build_world(&dic, &cfg, ctx).map_err(|e| e.describe()).expect("numeral dictionary");
             *g = Some(std::rc::Rc::new(d));
@@ -104,7 +108,7 @@ fn num() -> BoxedStrategy<Num> {
         prop::option::weighted(0.25, digits(1, 6)),
     )
         .prop_map(|(first, groups, frac)| Num::Comma { first, groups, frac });
-    let section = prop_oneof![3 => (1u16..10000).prop_map(Section::Pos), 3 => ((1u16..10000), any::<bool>()).prop_map(|(v, o)| Section::Small(v, o))];
+    let section = prop_oneof![3 => (1u16..10000).prop_map(Section::Pos), 3 => ((1u16..10000), any::<bool>()).prop_map(|(v, o)| Section::Small(v, o)), 1 => (1000u16..10000).prop_map(Section::Grouped)];
     let units = (
         prop::sample::subsequence(vec![12u32, 8, 4, 0], 1..=4),
         vec(section, 4),
@@ -224,8 +228,8 @@ impl Property for C15 {
             3 => select(vec!["3.", "1,", "2千", "12", ".5", "千", "1,23", "5.5.", "万", "一.", "3,000,"]).prop_map(|s| s.to_string()),
             1 => "[0-9一二三十百千万億,.]{1,6}",
         ];
-        (num(), select(vec!["", "あ", "x", "は"]), select(vec!["", "あ", "円", "x"]), prop::bool::weighted(0.2), prop::option::weighted(0.35, mutation()), prop::option::weighted(0.3, (pre, select(vec!["は", "あ", "x", "円"]))))
-            .prop_map(|(num, prefix, suffix, fullwidth, mutation, preamble)| Case { num, prefix: prefix.to_string(), suffix: suffix.to_string(), fullwidth, mutation, preamble: preamble.map(|(a, b)| format!("{}{}", a, b)) })
+        (num(), select(vec!["", "あ", "x", "は"]), select(vec!["", "あ", "円", "x"]), prop::bool::weighted(0.2), prop::option::weighted(0.35, mutation()), prop::option::weighted(0.3, (pre, select(vec!["は", "あ", "x", "円"]))), prop::bool::weighted(0.25))
+            .prop_map(|(num, prefix, suffix, fullwidth, mutation, preamble, omit_key)| Case { num, prefix: prefix.to_string(), suffix: suffix.to_string(), fullwidth, mutation, preamble: preamble.map(|(a, b)| format!("{}{}", a, b)), omit_key })
             .boxed()
     }
     fn cases_per_shard(&self, tier: Tier) -> u32 {
@@ -243,11 +247,11 @@ impl Property for C15 {
             let digits: Vec<u8> = (0..n).map(|i| ((i * 7 + 3) % 10) as u8).collect();
             for frac in [None, Some(vec![5u8]), Some(vec![0u8, 2, 5])] {
                 let name = format!("{} digits{}", n, if frac.is_some() { " + fraction" } else { "" });
-                fam.push((name, Case { num: Num::Plain { digits: digits.clone(), frac: frac.clone(), style: 0, sel: 0 }, prefix: "あ".into(), suffix: "円".into(), fullwidth: false, mutation: None, preamble: None }));
+                fam.push((name, Case { num: Num::Plain { digits: digits.clone(), frac: frac.clone(), style: 0, sel: 0 }, prefix: "あ".into(), suffix: "円".into(), fullwidth: false, mutation: None, preamble: None, omit_key: false }));
             }
             if n <= 30_000 {
                 let groups: Vec<[u8; 3]> = (0..n / 3).map(|i| [(i % 10) as u8, ((i / 10) % 10) as u8, 7]).collect();
-                fam.push((format!("{} comma groups", n / 3), Case { num: Num::Comma { first: vec![1, 2], groups, frac: Some(vec![2, 5]) }, prefix: String::new(), suffix: "x".into(), fullwidth: false, mutation: None, preamble: None }));
+                fam.push((format!("{} comma groups", n / 3), Case { num: Num::Comma { first: vec![1, 2], groups, frac: Some(vec![2, 5]) }, prefix: String::new(), suffix: "x".into(), fullwidth: false, mutation: None, preamble: None, omit_key: false }));
             }
         }
         run_family(self, ctx, stats, "long-numerals", fam)
@@ -262,7 +266,7 @@ impl Property for C15 {
     }
     fn check(&self, case: &Case, ctx: &mut Ctx) -> Report {
         let mut rep = Report::default();
-        let dict = numeral_dict(ctx);
+        let dict = numeral_dict(ctx, case.omit_key);
         let (notation, expected) = case.num.render();
         let numeral = match &case.mutation {
             Some(m) => apply_mutation(&notation, m),
@@ -353,11 +357,11 @@ impl Property for C15 {
 pub fn fixtures() -> Vec<(&'static str, Case, &'static str)> {
     vec![(
         "f20-comma-before-unit.json",
-        Case { num: Num::Plain { digits: vec![1], frac: None, style: 0, sel: 0 }, prefix: "".into(), suffix: "".into(), fullwidth: false, mutation: Some(Mutation::Noise("二,兆".into())), preamble: None },
+        Case { num: Num::Plain { digits: vec![1], frac: None, style: 0, sel: 0 }, prefix: "".into(), suffix: "".into(), fullwidth: false, mutation: Some(Mutation::Noise("二,兆".into())), preamble: None, omit_key: false },
         "F20: a thousands separator directly followed by a unit (二,兆) is accepted and the piece is joined as 2000000000000",
     ), (
         "f11-zero-fraction-times-unit.json",
-        Case { num: Num::FracUnit { int: vec![0], frac: vec![5], small: Some(3), large: None }, prefix: "".into(), suffix: "".into(), fullwidth: false, mutation: None, preamble: None },
+        Case { num: Num::FracUnit { int: vec![0], frac: vec![5], small: Some(3), large: None }, prefix: "".into(), suffix: "".into(), fullwidth: false, mutation: None, preamble: None, omit_key: false },
         "F11: 0.5千 is joined and normalised to 0500 instead of 500",
     )]
 }
